@@ -265,6 +265,15 @@ def function_inputs(target, seed=0, n=400):
             end = rng.choice([2.0, 3.0, 4.5])
             xi, xl = seg(end, 'x')
             yi, yl = seg(end if rng.random() < 0.9 else end + 0.5, 'y')
+            r = rng.random()
+            if r < 0.25 and len(xi) > 1:
+                # a boundary of y a fraction of a microsecond after a boundary of x (still two boundaries)
+                c = xi[0][1] + 5e-07
+                yi, yl = [[0.0, c], [c, yi[-1][1]]], ['y0', 'y1']
+            elif r < 0.4 and len(xi) > 2:
+                # an internal gap in x
+                xi = [xi[0]] + [list(v) for v in xi[2:]]
+                xl = [xl[0]] + xl[2:]
             yield dict(x_intervals=xi, x_labels=xl, y_intervals=yi, y_labels=yl)
     if target.startswith('pattern.') and target.split('.')[1] in ('establishment_FPR', 'occurrence_FPR', 'three_layer_FPR', 'standard_FPR'):
         def pat():
